@@ -477,8 +477,12 @@ class Interp:
                 f = n.func
                 if isinstance(f, ast.Name) and f.id in ("bool", "int", "len", "isinstance", "bytes", "float", "old", "abs"):
                     continue
-                if isinstance(f, ast.Attribute) and f.attr in ("get", "hex", "tobytes", "startswith", "get_property", "keys"):
+                if isinstance(f, ast.Attribute) and f.attr in ("get", "hex", "tobytes", "startswith", "get_property", "keys", "get_from_value", "list"):
                     continue
+                if isinstance(f, ast.Name) and f.id == "cast":
+                    continue
+                if isinstance(f, ast.Attribute) and f.attr[:1].isupper() and not f.attr.isupper():
+                    continue        # construction of an enum member, e.g. AirConditioner.BreezeMode(value)
                 return False
         return True
 
@@ -1668,6 +1672,31 @@ class Interp:
                     else:
                         self.B.symset_add(self, cont, o, x, cond=t.t)
                     return
+        if (not node.orelse and len(node.body) == 1 and isinstance(node.body[0], ast.Assign) and len(node.body[0].targets) == 1
+                and isinstance(node.body[0].targets[0], (ast.Attribute, ast.Name)) and self.pure_expr(node.body[0].value, fr)
+                and (not isinstance(node.body[0].targets[0], ast.Attribute) or self.pure_expr(node.body[0].targets[0].value, fr))
+                and not any(isinstance(n, (ast.Await, ast.Yield)) for n in ast.walk(node.test))):
+            # `if c: x = e` with side-effect free e: merged into x = (e if c else x) instead of forking the path
+            t = ops.truth(self, self.ev(node.test, fr))
+            if t.c is None:
+                tgt = node.body[0].targets[0]
+                try:
+                    old = self.ev(tgt, fr) if not isinstance(tgt, ast.Name) or tgt.id in fr.locals else None
+                except PyRaise:
+                    old = None
+                if old is not None and self.path.feasible(t.t) and self.path.feasible(z3.Not(t.t)):
+                    try:
+                        new = self._under(t.t, node.body[0].value, fr)
+                    except _InfeasibleBranch:
+                        return
+                    self.assign(tgt, ops.union_of([(t.t, new), (z3.Not(t.t), old)]), fr)
+                    return
+                if self.path.branch(t.t, f"if@{node.lineno}"):
+                    self.exec_block(node.body, fr)
+                return
+            if t.c:
+                self.exec_block(node.body, fr)
+            return
         if self.cond(self.ev(node.test, fr), f"if@{node.lineno}"):
             self.exec_block(node.body, fr)
         else:
